@@ -20,6 +20,9 @@ def families(tier):
             ex.append("dd")
         if rnd.random() < 0.4:
             ex.append("unk")
+        if i % 3 == 0:
+            D.replace_help_names(d, rnd, 0.5)
+            ex += ["althelp", "altver"]
         d["alpha"]["extras"] = ex
         d["alpha"]["clusters"] = False
         D.trim_to_budget(d, bud)
